@@ -78,7 +78,15 @@ prf_close(struct prf *prf)
 		fprintf(f, "%s\n", row->label);
 	}
 
-	fclose(f);
+	int bad = ferror(f);
+
+	if (fclose(f) != 0)
+		bad = 1;
+
+	if (bad) {
+		err("error writing the ROW file:");
+		return -1;
+	}
 
 	return 0;
 }
